@@ -21,6 +21,7 @@ import (
 	"os/exec"
 	"path/filepath"
 	"strconv"
+	"strings"
 	"sync"
 	"sync/atomic"
 	"syscall"
@@ -400,5 +401,86 @@ func shellBackground() {
 	wg.Wait()
 	for _, o := range out {
 		emit(o)
+	}
+}
+
+// ---------------------------------------------------------------------------- round 5: the response of an execution, body included
+
+type dumpObs struct {
+	Kind     string `json:"kind"`
+	Variant  string `json:"variant"`
+	Callback bool   `json:"callback"`
+	Step     int    `json:"step"`
+	Code     int    `json:"want"` // code the server sent
+	Size     int    `json:"size"` // bytes of body the server sent
+	ErrNil   bool   `json:"err_nil"`
+	Status   int    `json:"status"`
+	Held     int    `json:"code"`
+	CbCalls  int64  `json:"cb_calls"`
+	DumpErr  string `json:"dump_err,omitempty"`  // error of DumpResponse(true) after Execute returned
+	BodyOK   bool   `json:"body_ok"`             // the dumped body is what the server sent in THIS execution
+	BodyLen  int    `json:"body_len"`            // length of the dumped body
+	Dump2Err string `json:"dump2_err,omitempty"` // a second DumpResponse(true)
+	Body2OK  bool   `json:"body2_ok"`
+}
+
+func dumpBody(step, size int) string {
+	var sb strings.Builder
+	for i := 0; sb.Len() < size; i++ {
+		fmt.Fprintf(&sb, "[execution %d line %d]\n", step, i)
+	}
+	return sb.String()[:size]
+}
+
+// httpDump: after every execution of ONE CurlJob against a real server (bodies of 1 B .. 64 KiB, codes 200 / 404 / 500),
+// with and without a callback (which does not touch the body), DumpResponse(true) must return the response of
+// that execution, body included.
+func httpDump() {
+	srv := httptest.NewServer(http.HandlerFunc(func(w http.ResponseWriter, r *http.Request) {
+		step, _ := strconv.Atoi(r.Header.Get("X-Step"))
+		size, _ := strconv.Atoi(r.Header.Get("X-Size"))
+		code, _ := strconv.Atoi(r.Header.Get("X-Want"))
+		w.Header().Set("Content-Length", strconv.Itoa(size))
+		w.Header().Set("Content-Type", "text/plain")
+		w.WriteHeader(code)
+		_, _ = io.WriteString(w, dumpBody(step, size))
+	}))
+	defer srv.Close()
+	steps := []struct{ code, size int }{{200, 1}, {200, 4096}, {404, 300}, {200, 65536}, {500, 2048}, {200, 10000}, {200, 3}}
+	for _, cb := range []bool{false, true} {
+		tr := &http.Transport{}
+		var cur atomic.Int64
+		h := handlerFunc(func(req *http.Request) (*http.Response, error) {
+			i := int(cur.Load())
+			req.Header.Set("X-Step", strconv.Itoa(i))
+			req.Header.Set("X-Size", strconv.Itoa(steps[i].size))
+			req.Header.Set("X-Want", strconv.Itoa(steps[i].code))
+			return (&http.Client{Transport: tr}).Do(req)
+		})
+		req, _ := http.NewRequest(http.MethodGet, srv.URL+"/", nil)
+		cu, p := newCurl(req, h, cb)
+		for i, st := range steps {
+			cur.Store(int64(i))
+			before := p.calls.Load()
+			err := cu.Execute(context.Background())
+			o := &dumpObs{Kind: "dump", Variant: "server-body", Callback: cb, Step: i, Code: st.code, Size: st.size, ErrNil: err == nil,
+				Status: int(cu.JobStatus()), Held: heldCode(cu), CbCalls: p.calls.Load() - before}
+			want := dumpBody(i, st.size)
+			check := func() (string, bool, int) {
+				b, err := cu.DumpResponse(true)
+				if err != nil {
+					return err.Error(), false, 0
+				}
+				parts := strings.SplitN(string(b), "\r\n\r\n", 2)
+				if len(parts) != 2 {
+					return "", false, -1
+				}
+				return "", parts[1] == want, len(parts[1])
+			}
+			o.DumpErr, o.BodyOK, o.BodyLen = check()
+			o.Dump2Err, o.Body2OK, _ = check()
+			emit(o)
+		}
+		tr.CloseIdleConnections()
 	}
 }
